@@ -20,8 +20,9 @@ theorem pin_fileWriterPut : fileWriterPut = [
 
 /-- FileWriter.getData (pysmi/writer/localfile.py) -/
 theorem pin_fileWriterGet : fileWriterGet = [
-    "call:open", "call:f.read", "call:f.close", "return:value", "except:(OSError, IOError, UnicodeEncodeError)", "if",
-    "call:f.close", "return:value"] := by decide
+    "call:open", "call:f.read", "call:f.close", "return:value", "except:(OSError, IOError, UnicodeError)",
+    "call:sys.exc_info", "if", "call:f.close", "if", "return:value", "raise:error.PySmiWriterError",
+    "call:error.PySmiWriterError"] := by decide
 
 /-- PyFileWriter.putData (pysmi/writer/pyfile.py) -/
 theorem pin_pyFileWriterPut : pyFileWriterPut = [
